@@ -19,6 +19,7 @@ type Env struct {
 	vars   map[string]T
 	tys    map[string]types.Type
 	parent *Env
+	local  map[string]bool // names of (mutable) local variables: invisible inside old(...)
 }
 
 func newEnv(parent *Env) *Env {
@@ -26,12 +27,29 @@ func newEnv(parent *Env) *Env {
 }
 func (e *Env) bind(n string, v T, t types.Type) { e.vars[n] = v; e.tys[n] = t }
 func (e *Env) lookup(n string) (T, types.Type, bool) {
+	return e.lookupOld(n, false)
+}
+
+// lookupOld: inside old(...) the current values of local variables are not
+// visible; the name then denotes the parameter / let of that name, if any.
+func (e *Env) lookupOld(n string, inOld bool) (T, types.Type, bool) {
 	for x := e; x != nil; x = x.parent {
 		if v, ok := x.vars[n]; ok {
+			if inOld && x.local[n] {
+				continue
+			}
 			return v, x.tys[n], true
 		}
 	}
 	return T{}, nil, false
+}
+
+func (e *Env) bindLocal(n string, v T, t types.Type) {
+	e.bind(n, v, t)
+	if e.local == nil {
+		e.local = map[string]bool{}
+	}
+	e.local[n] = true
 }
 
 // rewriteImplies turns  A ==> B  into implies(A, B) and  A <==> B into
@@ -170,6 +188,7 @@ type evalCtx struct {
 	pkg  *types.Package
 	fn   *ssa.Function
 	depth int
+	inOld bool
 }
 
 // evalClause parses and evaluates a boolean contract expression.
@@ -261,7 +280,7 @@ func (ec *evalCtx) eval(e ast.Expr) (T, types.Type, error) {
 		case "nil":
 			return T{S: "0", Sort: "Nil"}, types.Typ[types.UntypedNil], nil
 		}
-		if v, t, ok := ec.env.lookup(x.Name); ok {
+		if v, t, ok := ec.env.lookupOld(x.Name, ec.inOld); ok {
 			return v, t, nil
 		}
 		if obj := ec.pkg.Scope().Lookup(x.Name); obj != nil {
@@ -629,6 +648,7 @@ func (ec *evalCtx) call(x *ast.CallExpr) (T, types.Type, error) {
 		}
 		sub := *ec
 		sub.now = ec.old
+		sub.inOld = true
 		n0 := len(ec.old.assumes)
 		r, rt, err := sub.eval(x.Args[0])
 		// well-formedness facts discovered while reading the old state
@@ -714,6 +734,29 @@ func (ec *evalCtx) call(x *ast.CallExpr) (T, types.Type, error) {
 			return b, nil, err
 		}
 		return T{S: ite(c.S, a.S, b.S), Sort: a.Sort}, at, nil
+	case "forallf32":
+		// forallf32(l, body): l ranges over the non-NaN float32 values
+		if err := argN(2); err != nil {
+			return T{}, nil, err
+		}
+		{
+			id, ok := x.Args[0].(*ast.Ident)
+			if !ok {
+				return T{}, nil, ec.errf(x, "binder must be an identifier")
+			}
+			vc.nfresh++
+			bv := fmt.Sprintf("%s!q%d", id.Name, vc.nfresh)
+			sub := *ec
+			sub.env = newEnv(ec.env)
+			sub.env.bind(id.Name, T{S: bv, Sort: SF32}, types.Typ[types.Float32])
+			vc.noFacts++
+			body, _, err := sub.eval(x.Args[1])
+			vc.noFacts--
+			if err != nil {
+				return body, nil, err
+			}
+			return T{S: fmt.Sprintf("(forall ((%s (_ FloatingPoint 8 24))) (=> (not (fp.isNaN %s)) %s))", bv, bv, body.S), Sort: SBool}, types.Typ[types.Bool], nil
+		}
 	case "forallstr", "existsstr":
 		// forallstr(s, body): s ranges over strings
 		if err := argN(2); err != nil {
@@ -890,6 +933,10 @@ func (ec *evalCtx) call(x *ast.CallExpr) (T, types.Type, error) {
 		v, _, err := ec.eval(x.Args[0])
 		if err != nil {
 			return v, nil, err
+		}
+		if v.Sort == SSlice {
+			// nil or backed by an array allocated by this function
+			return T{S: or(eq(app("sarr", v.S), "0"), app(">", app("root", app("sarr", v.S)), ec.old.mark)), Sort: SBool}, types.Typ[types.Bool], nil
 		}
 		return T{S: app(">", app("root", v.S), ec.old.mark), Sort: SBool}, types.Typ[types.Bool], nil
 	case "allocated":
@@ -1202,6 +1249,16 @@ func (ec *evalCtx) goCall(x *ast.CallExpr) (T, types.Type, error) {
 			} else {
 				name = ct.Underlying().(*types.Struct).Field(idx).Name()
 			}
+			if p, ok := ct.Underlying().(*types.Pointer); ok {
+				if si := vc.structOf(p.Elem()); si != nil && !si.opaque {
+					if ft := si.st.Field(idx).Type(); isModStruct(vc, ft) != nil {
+						// embedded struct value: the receiver is its address
+						cur = T{S: vc.fieldAddr(ec.now, si, cur.S, idx), Sort: SInt}
+						ct = types.NewPointer(ft)
+						continue
+					}
+				}
+			}
 			cur, ct, err = ec.selectField(x, cur, ct, name)
 			if err != nil {
 				return cur, nil, err
@@ -1264,9 +1321,15 @@ func (ec *evalCtx) goCall(x *ast.CallExpr) (T, types.Type, error) {
 		return T{}, nil, ec.errf(x, "cannot resolve call")
 	}
 	for _, a := range x.Args {
-		v, _, err := ec.eval(a)
+		v, at, err := ec.eval(a)
 		if err != nil {
 			return v, nil, err
+		}
+		// implicit conversion to an interface-typed parameter
+		if k := len(args); k < len(fn.Params) && at != nil && v.Sort != SIface && v.Sort != "Nil" {
+			if _, isIface := fn.Params[k].Type().Underlying().(*types.Interface); isIface {
+				v = vc.makeIface(ec.now, v, at)
+			}
 		}
 		args = append(args, v)
 	}
